@@ -855,6 +855,7 @@ def _resolve_action_conflicts(
 
             advancing_heads.append(picked_head)
             _generate_action_event_from_actionable_element(state, picked_head)
+            losing_heads: List[FlowHead] = []
             for head in ordered_heads:
                 if head == picked_head:
                     continue
@@ -916,14 +917,22 @@ def _resolve_action_conflicts(
                         head.matching_scores,
                     )
                 else:
-                    # Loosing heads will abort the flow
-                    flow_state = get_flow_state_from_head(state, head)
-                    log.info(
-                        "Loosing action at head: %s scores=%s",
-                        head,
-                        head.matching_scores,
-                    )
-                    _abort_flow(state, flow_state, head.matching_scores)
+                    losing_heads.append(head)
+
+            # Loosing heads will abort the flow. This is done after all the heads that share
+            # the winning action are registered as its users: aborting a flow can stop the
+            # flow of the winning head too (if it is a child of the loosing flow), and the
+            # action must then only be stopped if no other flow uses it.
+            for head in losing_heads:
+                flow_state = get_flow_state_from_head(state, head)
+                if not is_active_flow(flow_state):
+                    continue
+                log.info(
+                    "Loosing action at head: %s scores=%s",
+                    head,
+                    head.matching_scores,
+                )
+                _abort_flow(state, flow_state, head.matching_scores)
 
     return advancing_heads
 
